@@ -53,6 +53,11 @@ SHAPES = {
 # 8-bit text (control-spec: all 8-bit characters are permitted; relays' contact lines, file paths in messages)
 SHAPES['U8'] = (250, [('line', 'contact=Jos\u00e9'), ('data', 'desc=', ['contact Jos\u00e9 <j@x>', 'platform Tor']), ('line', 'OK')])
 SHAPES['EU8'] = (552, [('line', 'Unrecognized option "caf\u00e9"')])
+# the edges of the reply-code classes
+SHAPES['E500'] = (500, [('line', 'Syntax error')])
+SHAPES['E599'] = (599, [('line', 'x'), ('line', 'y')])
+SHAPES['T299'] = (299, [('line', 'a=b'), ('line', 'OK')])
+SHAPES['T200'] = (200, [('line', 'OK')])
 SEQ_SHAPES_Q = ['S', 'M1', 'MT', 'D', 'Dx', 'E', 'EM']
 SEQ_SHAPES_T = ['S', 'T', 'M1', 'M2', 'MT', 'D', 'DM', 'Dx', 'E', 'EM']
 SEG_SHAPES = list(SHAPES)
